@@ -149,10 +149,54 @@ func c08CacheBeforeDeliver(p *Prog, r *Report) {
 		r.bad(rule, "ClientConn.Receive", p.Pos(recv.Pos()), "no method of ClientConn stores into / loads from the prepared cache")
 		return
 	}
+	// the roles belong to the outermost methods of the chain below Receive: the one through which
+	// a reply reaches the cache update (and nothing else), and the one through which an error
+	// reply reaches the cache lookup (and nothing else)
+	reaches := func(m *ssa.Function, pred func(ssa.CallInstruction) bool) bool {
+		found := false
+		for _, f := range withCallees(p, m, 3) {
+			if f != m && recvNamed(f) != cc {
+				continue
+			}
+			eachCall(f, func(c ssa.CallInstruction) {
+				if pred(c) {
+					found = true
+				}
+			})
+		}
+		return found
+	}
+	isStore := func(c ssa.CallInstruction) bool {
+		cm := c.Common()
+		return cm.IsInvoke() && cm.Method.Name() == "Store" && recvNamedIs(cm.Method, "proxycore", "PreparedCache")
+	}
+	isLoad := func(c ssa.CallInstruction) bool {
+		cm := c.Common()
+		return cm.IsInvoke() && cm.Method.Name() == "Load" && recvNamedIs(cm.Method, "proxycore", "PreparedCache")
+	}
+	isDeliver := func(c ssa.CallInstruction) bool {
+		cm := c.Common()
+		return cm.IsInvoke() && cm.Method.Name() == "OnResult" && recvNamedIs(cm.Method, "proxycore", "Request")
+	}
+	for _, m := range p.methodsOf(cc) {
+		if m == recv || reaches(m, isDeliver) {
+			continue
+		}
+		st, ld := reaches(m, isStore), reaches(m, isLoad)
+		if st && !ld && reaches(m, func(c ssa.CallInstruction) bool { return c.Common().StaticCallee() == cacheFn }) {
+			cacheFn = m
+		}
+		if ld && !st && reaches(m, func(c ssa.CallInstruction) bool { return c.Common().StaticCallee() == interceptFn }) {
+			interceptFn = m
+		}
+	}
 	for _, op := range []string{"OpCodeResult", "OpCodeError"} {
 		s := newSim(p)
 		s.Tracked[opF] = true
 		s.Tracked[pcF] = true
+		s.Inline = func(f *ssa.Function) bool {
+			return recvNamed(f) == cc && f.Parent() == nil && f != cacheFn && f != interceptFn && f != recv && onlyCalledFrom(p, f, recv, 4)
+		}
 		s.Model = func(sm *Sim, st *State, call ssa.CallInstruction, callee *ssa.Function) []*State {
 			switch {
 			case callee != nil && callee == getPendingRoles(p).loadAndDelete:
@@ -236,12 +280,46 @@ func c08Keys(p *Prog, r *Report) {
 			}
 			desc := "raw"
 			arg := cm.Args[0]
-			src := ""
-			if kc, ok := arg.(*ssa.Call); ok && kc.Call.StaticCallee() != nil {
-				desc = kc.Call.StaticCallee().String()
-				src = fieldPath(kc.Call.Args[0])
-			} else {
-				src = fieldPath(arg)
+			src := fieldPath(arg)
+			// the key may reach the cache call through a parameter or a result of a private helper
+			var keyCall *ssa.Call
+			var find func(v ssa.Value, depth int)
+			find = func(v ssa.Value, depth int) {
+				if keyCall != nil || depth > 4 {
+					return
+				}
+				for _, o := range originsInter(p, v, 2) {
+					switch x := o.(type) {
+					case *ssa.Call:
+						callee := x.Call.StaticCallee()
+						if callee == nil {
+							continue
+						}
+						if !p.InRepo(callee) {
+							keyCall = x
+							return
+						}
+						// a repo helper returning the key: look at what it returns
+						eachInstr(callee, func(in ssa.Instruction) {
+							if ret, ok := in.(*ssa.Return); ok && len(ret.Results) > 0 {
+								find(ret.Results[0], depth+1)
+							}
+						})
+					case *ssa.Extract:
+						if cc, ok := x.Tuple.(*ssa.Call); ok && cc.Call.StaticCallee() != nil && p.InRepo(cc.Call.StaticCallee()) {
+							eachInstr(cc.Call.StaticCallee(), func(in ssa.Instruction) {
+								if ret, ok := in.(*ssa.Return); ok && x.Index < len(ret.Results) {
+									find(ret.Results[x.Index], depth+1)
+								}
+							})
+						}
+					}
+				}
+			}
+			find(arg, 0)
+			if keyCall != nil {
+				desc = keyCall.Call.StaticCallee().String()
+				src = fieldPath(keyCall.Call.Args[0])
 			}
 			pos = p.Pos(c.Pos())
 			if cm.Method.Name() == "Store" {
@@ -282,7 +360,7 @@ func c08Reprepare(p *Prog, r *Report) {
 	prep := p.Named("proxycore", "prepareRequest")
 	fn := p.methodOf(prep, "OnResult")
 	opF := p.Field("frame", "Header", "OpCode")
-	origF := p.Field("proxycore", "prepareRequest", "origRequest")
+	origF := p.FieldRole("proxycore", "prepareRequest", "origRequest", isRequestIface)
 	for _, op := range []string{"OpCodeError", "OpCodeResult"} {
 		s := newSim(p)
 		s.Tracked[opF] = true
@@ -427,7 +505,7 @@ func c08RawBody(p *Prog, r *Report) {
 func c08ReplayEncoding(p *Prog, r *Report) {
 	const rule = "C08.replay-encoding"
 	r.Rule(rule, "the frame cached for a prepared statement and the frame replayed to re-prepare it are produced by decoding the PREPARE and encoding its message again (NewFrame + ConvertToRawFrame): cached without compression and request flags, replayed with the protocol version of the connection it is sent on (the version of the UNPREPARED response just received there), never the preparing client's frame bytes as they were")
-	prepF := p.Field("proxycore", "prepareRequest", "prepare")
+	prepF := p.FieldRole("proxycore", "prepareRequest", "prepare", isRawFramePtr)
 	entryF := p.Field("proxycore", "PreparedEntry", "PreparedFrame")
 	verF := p.Field("frame", "Header", "Version")
 	// describe how a stored frame value was produced: (reencoded?, version argument at the outermost call site)
@@ -511,10 +589,14 @@ func c08ReplayEncoding(p *Prog, r *Report) {
 			} else if f == prepF {
 				// replay: version of a frame received on this connection (a RawFrame parameter of this function)
 				okVer := false
-				if vf, hdr := loadedField(pr.version); vf == verF && hdr != nil {
-					if _, base := loadedField(hdr); base != nil {
-						if par, isPar := base.(*ssa.Parameter); isPar && par.Parent() == fn {
-							okVer = true
+				for _, vo := range originsInter(p, pr.version, 3) {
+					if vf, hdr := loadedField(vo); vf == verF && hdr != nil {
+						if _, base := loadedField(hdr); base != nil {
+							// the header of a raw frame handed to this code as a parameter (the reply just received),
+							// never a frame taken out of the cache
+							if par, isPar := base.(*ssa.Parameter); isPar && typeIs(par.Type(), "frame", "RawFrame") {
+								okVer = true
+							}
 						}
 					}
 				}
